@@ -9,6 +9,8 @@
      per-account entry after its add succeeded.
  MP3 (K1) the containers' maps are mutated only by the enumerated container methods; the
      tracked set is inserted into only after a successful container add.
+ MP6 (K2) loops over transactions that were extracted from a container (demotions, promotions,
+     removals) run to exhaustion: no break/return/? inside.
  MP5 (K5) promotion candidates are computed against balances net of the pending transactions'
      costs (`subtract_contained_costs`), in both insertion and maintenance.
 Not decided: nonce-contiguity / affordability invariants over operation sequences, ordering of
@@ -17,7 +19,7 @@ the builder queue (a property of Ord values).
 import re
 
 from facts import short_name
-from kinds import (rel, comparisons, bool_payload_edges, k1_callers, k2_site_guarded,
+from kinds import (for_loops, loop_leaves_early, rel, comparisons, bool_payload_edges, k1_callers, k2_site_guarded,
                    on_all_success_paths)
 
 CRATES = ["astria_sequencer.lib"]
@@ -39,6 +41,7 @@ def run(prog, rep):
         "of operations are not explored.")
     rep.assumptions += ["production cfg only"]
     mp1(prog, rep)
+    mp6(prog, rep)
     mp2(prog, rep)
     mp3(prog, rep)
     mp5(prog, rep)
@@ -75,6 +78,27 @@ def mp1(prog, rep):
                           f"nor parked, nor reported as removed", r.where(),
                           detail="paired with RemovalCache::add of the same id")
     rep.floor("MP1", n, 5, "contained_txs.remove sites")
+
+
+def mp6(prog, rep):
+    """Transactions that were taken out of a container to be moved (`find_demotables`,
+    `find_promotables`, the per-run `removed_txs` list) are no longer anywhere: the loop that
+    re-homes or reports them must visit every one of them - it may only end by exhaustion."""
+    n = 0
+    for o in prog.owners(r"^astria_sequencer::mempool::MempoolInner::(run_maintenance|insert)$"):
+        body = prog.main_body(o)
+        for head, it in for_loops(body):
+            m = re.search(r"(find_demotables|find_promotables|removed_txs|clear_account|"
+                          r"clean_account_stale_expired|find_stale|recost)", it)
+            if not m:
+                continue
+            n += 1
+            early = loop_leaves_early(body, head)
+            rep.check(early is False, "MP6", rep.nth(f"{short_name(o)}|for {m.group(1)}:exhaustive"),
+                      f"the loop over `{it[:70]}` can be left before all extracted transactions "
+                      "were re-homed or reported (break/return/?): the rest are in no container and "
+                      "have no removal reason, yet stay tracked", head.where())
+    rep.floor("MP6", n, 4, "loops over extracted transactions")
 
 
 def mp2(prog, rep):
